@@ -650,7 +650,13 @@ func mutateVals(r *hx.Rand, vs []string) []string {
 			out[i] = "a1," + v
 		}
 	case 4: // null / unset / false / byte 0 / empty string
-		out[i] = hx.Pick(r, []string{"n", "x", "f", "y00", "s-", "b-", "a0", "m0", "u0"})
+		if v == "t" {
+			out[i] = "f"
+		} else if v == "f" {
+			out[i] = "t"
+		} else {
+			out[i] = hx.Pick(r, []string{"n", "x", "f", "t", "y00", "y01", "s-", "b-", "a0", "m0", "u0", "u1"})
+		}
 	case 5: // drop or duplicate a field
 		if r.Bool() && len(out) > 1 {
 			out = append(out[:i], out[i+1:]...)
@@ -1096,6 +1102,12 @@ func gen(r *hx.Rand, n int, tier string, emit func(string), st *hx.Stats) {
 				}
 			case 4:
 				u.u = append(append([]byte{}, u.u...), 0)
+			case 5:
+				if u.cond {
+					u.name = append(append([]byte{}, u.name...), 'n')
+				} else {
+					u.r = append(append([]byte{}, u.r...), 'n')
+				}
 			}
 			emit("pair tup " + t.spec() + " ## tup " + u.spec())
 		case k < 50:
@@ -1165,7 +1177,23 @@ func genSite(r *hx.Rand, tier string) string {
 func mutateSite(r *hx.Rand, s string) string {
 	f := strings.Fields(s)
 	args := f[2:]
-	switch r.Intn(4) {
+	switch r.Intn(6) {
+	case 4, 5: // change exactly one argument
+		i := r.Intn(len(args))
+		a := strings.SplitN(args[i], "=", 2)
+		if strings.HasPrefix(a[1], "#") {
+			v, _ := strconv.ParseUint(a[1][1:], 10, 64)
+			args[i] = a[0] + "=#" + strconv.FormatUint(v+1, 10)
+		} else {
+			b := hx.MustUnH(a[1])
+			if len(b) > 0 && len(b) < 400 && r.Bool() {
+				b = append([]byte{}, b...)
+				b[r.Intn(len(b))] ^= 1
+			} else if len(b) < 400 {
+				b = append(append([]byte{}, b...), 'q')
+			}
+			args[i] = a[0] + "=" + hx.H(b)
+		}
 	case 0: // move a byte from one string argument to the next
 		for i := 0; i+1 < len(args); i++ {
 			a, b := strings.SplitN(args[i], "=", 2), strings.SplitN(args[i+1], "=", 2)
@@ -1252,10 +1280,12 @@ func genInvPair(r *hx.Rand, emit func(string), st *hx.Stats) {
 		t := genTuple(r)
 		o := genTuple(r)
 		emit("pair " + mk(store, model, ctx, []gtuple{t, o, t}) + " ## " + mk(store, model, ctx, []gtuple{t, t, o}))
-	case k < 7: // store / model re-split
+	case k < 7: // store / model re-split, or only one of them changed
 		st.Inc("pair-inv-resplit")
 		s2, m2 := append(append([]byte{}, store...), 'a'), model
-		if len(model) > 0 {
+		if r.Chance(1, 3) {
+			s2, m2 = store, append(append([]byte{}, model...), 'a')
+		} else if len(model) > 0 && r.Bool() {
 			s2, m2 = append(append([]byte{}, store...), model[0]), model[1:]
 		}
 		ts := genTuples(r, false)
@@ -1290,7 +1320,20 @@ func genInvPair(r *hx.Rand, emit func(string), st *hx.Stats) {
 		us := append([]gtuple{}, ts...)
 		if len(us) > 0 && r.Bool() {
 			i := r.Intn(len(us))
-			us[i].u = append(append([]byte{}, us[i].u...), 'z')
+			switch r.Intn(4) {
+			case 0:
+				us[i].o = append(append([]byte{}, us[i].o...), 'z')
+			case 1:
+				us[i].r = append(append([]byte{}, us[i].r...), 'z')
+			case 2:
+				us[i].u = append(append([]byte{}, us[i].u...), 'z')
+			default:
+				if us[i].cond {
+					us[i].name = append(append([]byte{}, us[i].name...), 'z')
+				} else {
+					us[i].u = append(append([]byte{}, us[i].u...), 'y')
+				}
+			}
 			us = distinctKeys(us)
 		} else {
 			us = distinctKeys(append(us, genTuple(r)))
@@ -1429,7 +1472,17 @@ func genIterPair(r *hx.Rand, emit func(string), st *hx.Stats) {
 		}
 	case 5: // plain field change
 		st.Inc("pair-iter-field")
-		y.store = append(append([]byte{}, x.store...), 0)
+		switch r.Intn(4) {
+		case 0:
+			y.store = append(append([]byte{}, x.store...), 0)
+		case 1:
+			y.a = append(append([]byte{}, x.a...), 0)
+		case 2:
+			y.b = append(append([]byte{}, x.b...), 0)
+		default:
+			x.kind, y.kind = "read", "read"
+			y.usr = append(append([]byte{}, x.usr...), 0)
+		}
 	case 6: // re-split object / relation
 		st.Inc("pair-iter-resplit")
 		if len(x.b) > 0 {
